@@ -26,7 +26,8 @@ RULE_TEXT = ('runs = seeded random operation histories (1..14 ops from cd / env 
 REACH_PROBES = ['long_child_after_timeout_none', 'op_set', 'op_unset', 'op_timeout', 'op_cd', 'spec_act', 'spec_nonact', 'spec_none',
                 'act_spec_outside_setup', 'ref_unknown', 'ref_known', 'value_from_program', 'timeout_none',
                 'fault_between_ops', 'cleanup_after_fault_sees_state', 'slow_below', 'slow_above_killed',
-                'ops_in_cleanup', 'ops_in_assert', 'atc_observed', 'stub_view_observed', 'cd_relative']
+                'ops_in_cleanup', 'ops_in_assert', 'atc_observed', 'stub_view_observed', 'cd_relative',
+                'atc_by_command_line_actor', 'atc_by_file_actor', 'atc_by_source_actor']
 
 NAMES = ['V1', 'V2', 'V3', 'SIMBASE_A']
 PHASES = ['setup', 'before-assert', 'assert', 'cleanup']
@@ -144,6 +145,16 @@ def make_plan(i, master, tier):
             'case': case, 'procs': procs, 'faults': faults, 'slow': slow, 'sweep': False, 'keep': g.random() < 0.25}
     if slow:
         _place_slow(plan, fr)
+    # which actor runs the action to check is no business of the settings: all three kinds of actor that start a
+    # process must hand it the act set, the current directory and the timeout
+    actor = kernel.stream(seed, 'actor').choice([None, None, 'file', 'source'])
+    if actor == 'file':
+        case['conf'].append({'k': 'real', 'text': 'actor = file % atc'})
+        case['act'] = {'lines': ['src.py a1']}
+    elif actor == 'source':
+        case['conf'].append({'k': 'real', 'text': 'actor = source % atc'})
+        case['act'] = {'lines': ['source line one', 'source line two']}
+    plan['actor'] = actor
     return plan
 
 
@@ -182,6 +193,7 @@ def execute(plan, scratch):
     w = world_mod.World(os.path.join(scratch, 'w'))
     text = casegen.render_case(plan['case'], plan['status'])
     w.write('home/t.case', text)
+    w.write('home/src.py', 'print(1)\n')
     sim = kernel.Sim(plan, w)
     with patches.installed(sim):
         res = host.run_cli(sim, (['--keep'] if plan.get('keep') else []) + ['t.case'])
@@ -395,6 +407,7 @@ def _probes(plan, hist):
             pr['cleanup_after_fault_sees_state'] = 1
     if 'atc' in tags:
         pr['atc_observed'] = 1
+        pr['atc_by_%s_actor' % (plan.get('actor') or 'command_line')] = 1
     if any(e.get('view') for e in hist['events']):
         pr['stub_view_observed'] = 1
     if plan.get('slow') == 'below':
@@ -417,7 +430,7 @@ def signature(plan, hist):
                 ops.append((ph, fx[0], fx[1] if fx[0] in ('set', 'unset') else None))
     f = hist['fired_all'][0] if hist['fired_all'] else None
     return hist['n_ops_executed'] > 0, (tuple(ops), (f['kind'], P.locate(plan['case'], f)[1]) if f else None,
-                                        plan.get('slow'))
+                                        plan.get('slow'), plan.get('actor'))
 
 
 _orig_execute = execute
